@@ -161,5 +161,17 @@ PROPS['C11'] = {
             '(real solvers, library functionals incl. KL / indicators / Huber) that is never counted as proved. Not claimed: accelerated pdhg, callable lam(k), accelerated_proximal_gradient',
     'technique': 'contract-based deductive verification: relational loop invariants (initiation + consecution from a havocked generic state) over symbolic execution of the real loop bodies, z3',
 }
+PROPS['C12'] = {
+    'level': 'proof',
+    'text': 'Deductive, on the real loop bodies from a generic loop-head state (symbolic iteration count, abstract linear operators / functionals, Gram algebra of inner products): '
+            'CG: the invariant {r = b - A x, <p,r> = <r,r>, <r,Ap> = <p,Ap>} is inductive and gives E(x+) = E(x) - <r,r>^2/<p,Ap> <= E(x), <p+,Ap> = 0, <r+,r> = 0; CGN: analogous, residual never increases; '
+            'Landweber / Kaczmarz (fixed and random order, m <= 3): residual resp. distance to a solution never increases for 0 < omega <= 2/||A||^2; BacktrackingLineSearch (while-loop contract) returns an '
+            'Armijo step, so steepest descent never increases f; power_method_opnorm never exceeds any valid norm bound. PDHG (plain + accelerated), Douglas-Rachford, forward-backward, (accelerated) proximal '
+            'gradient, linearized ADMM: one body execution == documented update; a state left unchanged satisfies the KKT inclusions (prox characterisation); a KKT point is left unchanged; default step-size rules admissible.',
+    'note': 'trusted: pyvc interpreter, contracts C01-C10, Gram algebra (bilinearity, symmetry, adjoint law, Cauchy-Schwarz / operator-norm instances), prox characterisation (A6); the convergence theory on top of '
+            'the one-step facts is mathematics, not code. Known finding: forward_backward_pd runs without over-relaxation (x_old aliases x). Not decided: CG exactness after n steps (bounded native monitor only), '
+            'limits, Newton / BFGS / nonlinear CG. Thorough tier adds a bounded native monitor, never counted as proved',
+    'technique': 'contract-based deductive verification: inductive loop invariants and one-step lemmas over symbolic execution of the real loop bodies in a Gram algebra, sub-differential calculus via prox atoms, z3',
+}
 for _k in PROPS:
     NOT_APPLICABLE.pop(_k, None)
